@@ -9,6 +9,7 @@ import Mathlib.Analysis.SpecialFunctions.Trigonometric.Arctan
 import Mathlib.Analysis.SpecialFunctions.Complex.Arg
 import Mathlib.Analysis.SpecialFunctions.Sqrt
 import Mathlib.Analysis.SpecialFunctions.Pow.Complex
+import Mathlib.Analysis.SpecialFunctions.Gamma.Basic
 
 open BLDFM
 
@@ -30,6 +31,7 @@ noncomputable def RC : Fns ℝ ℂ where
   arctan2 := fun y x => Complex.arg ⟨x, y⟩
   rpow := fun x y => x ^ y
   pi := Real.pi
+  gamma := Real.Gamma
   nan := 0
   natCast := fun n => (n : ℝ)
   truncNat := fun x => ⌊x⌋₊
@@ -51,12 +53,14 @@ theorem RC_pi : RC.pi = Real.pi := rfl
 theorem RC_natCast (n : ℕ) : RC.natCast n = (n : ℝ) := rfl
 theorem RC_truncNat (x : ℝ) : RC.truncNat x = ⌊x⌋₊ := rfl
 theorem RC_store32 (z : ℂ) : RC.store32 z = z := rfl
+theorem RC_gamma (x : ℝ) : RC.gamma x = Real.Gamma x := rfl
+theorem RC_arctan2 (y x : ℝ) : RC.arctan2 y x = Complex.arg ⟨x, y⟩ := rfl
 
 /-- rewrite applied `RC` projections to Mathlib's functions without unfolding `RC` where
 it is merely passed along -/
 macro "rc_norm" : tactic =>
   `(tactic| simp only [RC_ofReal, RC_I, RC_re, RC_cexp, RC_exp, RC_log, RC_sqrt, RC_sin, RC_cos,
-      RC_arctan, RC_rpow, RC_pi, RC_natCast, RC_truncNat, RC_store32])
+      RC_arctan, RC_rpow, RC_pi, RC_natCast, RC_truncNat, RC_store32, RC_gamma])
 
 theorem sumN_eq_sum {α : Type} [AddCommMonoid α] (n : ℕ) (f : ℕ → α) :
     sumN (0 : α) n f = ∑ i ∈ Finset.range n, f i := by
